@@ -64,7 +64,7 @@ def probe_space(name, worlds, depth, probe, system=None):
             if ok:
                 chunks.append(({'world': wn, 'prefix': [list(label)]}, depth - 1))
     sp = Space(name, chunks, run_chunk=run_chunk, sig=sig,
-               bounds={'worlds': list(worlds), 'depth': depth, 'menu': 'the 28-operation menu of C02 (props/c02.py)',
+               bounds={'worlds': list(worlds), 'depth': depth, 'menu': 'the 30-operation menu of C02 (props/c02.py)',
                        'probe': 'oracle of this property evaluated on deep copies of the objects of every reached state'})
     sp.history_system = system
     sp.history_build = build
